@@ -39,7 +39,7 @@ ASSUMPTIONS = [
 
 QUERIES = [
     ("valid", "$.a"), ("valid", "$..a"), ("valid", "$[?@.a == 1]"), ("valid", "$[?match(@.b, 'x.*')]"), ("valid", "$.é"),
-    ("valid", "$"),
+    ("valid", "$"), ("valid", "$[?@.a == @.b]"), ("valid", "$[?@ != $[0]]"), ("valid", "$[?@.a < @.b || length(@.a) == 1]"),
     ("syntax", "$["), ("syntax", "$.a b"), ("type", "$[?count(1) == 1]"), ("name", "$[?nosuch(@.a)]"),
     ("index", "$[9007199254740992]"), ("overflow", "$[?@ == 1e400]"), ("syntax", "$[?@ == 'a\x01']"),
     # invalid queries that contain line breaks: the diagnostic must still be one line
@@ -62,6 +62,8 @@ DOCS = [
     ("ok", json.dumps([{"a": 1, "b": "xyz"}, {"a": 2}, {"a": {"a": [1, None]}}]).encode()),
     ("ok", json.dumps({"é": "ü\U0001F600", "a": ["é"]}, ensure_ascii=False).encode("utf-8")),
     ("ok", b'{"a": "\\ud83d", "b": "x\\udc00y"}'), ("ok", b'[{"a": 1, "b": "xy\\ud800"}, {"a": "\\u00e9\\u4e2d"}]'),
+    ("ok", json.dumps([{"a": {"x": 1}, "b": {"y": 1}}, {"a": {"x": [1]}, "b": {"x": [1]}}, {"a": 1.0, "b": 1},
+                       {"a": [1], "b": [True]}, {"a": "x", "b": None}]).encode()),
     ("ok", b"1"), ("ok", b"null"), ("ok", b'"s"'), ("ok", b"[]"),
     ("ok", b'  {"a": [1, 2, {"a": 3}]}\n'),
     ("deep", json.dumps(deep(150)).encode()),
